@@ -39,6 +39,11 @@ Definition dec_op (l : list Z) : option op * list Z :=
   (* deletions delivered as informer tombstones are the same events for the model *)
   | 12 :: p :: rest => (Some (OPodDelete p), rest)
   | 13 :: rest => (Some ODeviceDelete, rest)
+  (* scheduling cycles whose Filter and Reserve phases are separate operations *)
+  | 14 :: p :: a :: b :: c :: d :: e :: f :: g :: hint :: rest =>
+      let '(al, r) := decode_seq dec_talloc rest in (Some (OFilter p (mkRaw a b c d e f g) (zb hint) al), r)
+  | 15 :: p :: rest => (Some (OFilterAgain p), rest)
+  | 16 :: p :: rest => (Some (OReserve p), rest)
   | _ => (None, [])
   end.
 Fixpoint dec_ops (n : nat) (l : list Z) : list op :=
